@@ -72,6 +72,14 @@ struct Outcome {
   }
 };
 
+inline Outcome OutcomeOfErr(const SimError& e, const char* who) {
+  const std::uint32_t code = e.t.Read(who);
+  if (code == 0xFFFFFFFFU) {
+    return {OKind::Bad, 3};
+  }
+  return code == 0 ? Outcome{OKind::Stopped, 0} : Outcome{OKind::Error, code};
+}
+
 inline Outcome OutcomeOfEx(const std::exception_ptr& ep) {
   if (ep == nullptr) {
     return {OKind::Bad, 1};
@@ -80,17 +88,12 @@ inline Outcome OutcomeOfEx(const std::exception_ptr& ep) {
     std::rethrow_exception(ep);
   } catch (const TaggedEx& e) {
     return {OKind::Exception, e.id};
+  } catch (const yaclib::ResultError<SimError>& e) {
+    // an awaited error that was rethrown by co_await / Result::Ok() and escaped: still "that error"
+    return OutcomeOfErr(e.Get(), "error rethrown as ResultError");
   } catch (...) {
     return {OKind::Bad, 2};
   }
-}
-
-inline Outcome OutcomeOfErr(const SimError& e, const char* who) {
-  const std::uint32_t code = e.t.Read(who);
-  if (code == 0xFFFFFFFFU) {
-    return {OKind::Bad, 3};
-  }
-  return code == 0 ? Outcome{OKind::Stopped, 0} : Outcome{OKind::Error, code};
 }
 inline Outcome OutcomeOfErr(const yaclib::StopError&, const char*) {
   return Outcome{OKind::Stopped, 0};
